@@ -674,14 +674,14 @@ def rx_show(t):
 
 
 def rx_tokens(t):
-    """Flat token stream of the pattern text: (text, is a single letter or '.')."""
+    """Flat token stream of the pattern text: (text, is a letter unit: a single letter, '.' or a class)."""
     k = t[0]
     if k == 'chr':
         return [(t[1], t[1].isalpha())]
     if k == 'dot':
         return [('.', True)]
     if k == 'cls':
-        return [(rx_show(t), False)]
+        return [(rx_show(t), True)]          # a class counts as one letter (cane.py since fix 7e33c72)
     if k == 'cat':
         return rx_tokens(t[1]) + rx_tokens(t[2])
     if k == 'alt':
@@ -860,8 +860,6 @@ def gen_rx_case(rng, maxlen):
     start = rng.choice([0, 0, 0, 0, 1, 2, 3, 4, 5, 1, 2, 3, len(seqs[0]) if seqs else 7, max(0, len(seqs[0]) - 3) if seqs else 2,
                         max(0, len(seqs[0]) - 4) if seqs else 1, 70 if rng.random() < 0.3 else 0])
     gap = gen_gap(rng, seqs)
-    if 'class' in rx_kind(tree) and rng.random() < 0.5:
-        gap = None
     case = {'_op': op, 'seqs': seqs, '_rx': tree, 'rf': rf, '_rfkind': rfkind, 'start': start, '_gap': gap, '_omit': []}
     if alias:
         case['_alias'] = alias
@@ -889,6 +887,10 @@ def gen_span_case(rng):
     e = b + rng.choice([0, 1, 3, 4, 9])
     L = rng.choice([e, e, e + 1, e + 7, 60, 0, max(0, e - 2)])
     return {'_op': 'span', 'rf': rng.choice([None, 0, 1, 2, -1, -2, -3, -3, -1, 5, -7]), 'L': L, 'b': b, 'e': e}
+
+
+def _is_letter_unit(t):
+    return (len(t) == 1 and (t.isalpha() or t == '.')) or (len(t) > 1 and t[0] == '[')
 
 
 def _canon_groups(lst):
@@ -1404,8 +1406,8 @@ def extra_checks(rng, tier, cov):
         rf = rng.choice(['fwd', 'bwd', 'both', 'both', None, 1, -3])
         toks = re.findall(r'\\.|\[\^?\]?[^\]]*\]|\{[^}]*\}|\(\?[:=!]|.', sub, flags=re.S)
         pat = sub if gap is None else ''.join(
-            t + ('[' + gap + ']*' if (len(t) == 1 and (t.isalpha() or t == '.') and i + 1 < len(toks) and len(toks[i + 1]) == 1
-                                     and (toks[i + 1].isalpha() or toks[i + 1] == '.')) else '') for i, t in enumerate(toks))
+            t + ('[' + gap + ']*' if (_is_letter_unit(t) and i + 1 < len(toks) and _is_letter_unit(toks[i + 1])) else '')
+            for i, t in enumerate(toks))
         req = {'fwd': {0, 1, 2}, 'bwd': {-1, -2, -3}, 'both': {0, 1, 2, -1, -2, -3}}.get(rf, None if rf is None else {rf})
         try:
             exp = rx_expected(s, pat, req, start, gap)
@@ -1465,7 +1467,7 @@ LEVEL_TEXT = ('Machine-checked Coq theorems (54, all closed under the global con
               '"nt in gap" is membership; the backward-count theorem uses a regenerated-table fact for the gap symbols "-", ".", "~". '
               'Round 7, the pattern language (coq/model/C13_Rx.v, 18 theorems): simple regexes are syntax trees (literal characters, ".", classes and negated classes over letters, '
               'concatenation, ordered alternation, greedy * + ? on atoms that consume, capturing and non-capturing groups; the pattern must not match the empty string) with a printer to the pattern text and a backtracking matcher with CPython priorities. '
-              'rx_rewrite_text_is_tree: the character-level gap rewriting of cane.py:217-222 applied to the text of a tree is the text of the tree-level rewriting (gap class between two neighbours of a concatenation that end / begin with a letter or "."), for all trees whose classes have no two neighbouring letters; '
+              'rx_rewrite_text_is_tree: the gap rewriting of cane.py:217-223 (re.findall units of the pattern text, a class "[...]" being one letter unit since fix 7e33c72; modelled with its backtracking corner cases) applied to the text of a tree is the text of the tree-level rewriting (gap class between two neighbours of a concatenation that end / begin with a letter, "." or a class), for all trees of the subset; '
               'rx_matcher_sound (only prefixes in the language of the pattern are reported); rx_gap_meaning (what the rewritten pattern matches is, degapped, matched by the original pattern, for patterns without ".", negated classes and gap characters; what the original matches is still matched), unbounded, by induction over trees and derivations; '
               'rx_matchall_sound (span, text, language membership, requested frame = residue count mod 3, both strands, for every tree), rx_order, rx_match_is_head (for any matcher), words_are_an_instance (the word model is the instance "ordered alternation of compiled words" of the generic pipeline); '
               'span_mirror (BioMatch.span mirroring is an involution that keeps bounds and length); groupby_partition (groupby("rf"): keys = distinct frames in first-occurrence order, groups = order-preserving sub-lists, none empty, every match in its group); '
@@ -1475,7 +1477,7 @@ LEVEL_TEXT = ('Machine-checked Coq theorems (54, all closed under the global con
 LEVEL_NOTE = ('Trusted: Coq kernel/vm_compute, tools/gen_data.py (COMPLEMENT tables, via the C05 model), the correspondence harness, CPython re/bisect/'
               'deepcopy. Modelled rather than verified: cane.match, BioMatch.span, BioMatchList.groupby (one key), BioSeq/BioBasket match(all). Domain: printable-ASCII upper-case '
               'sequences; word patterns start/stop/"|"-separated words over ASCII letters and "."; regex trees as described in coq/model/C13_Rx.v (rx_ok: no anchors, no {m,n}, no lazy quantifiers, no ranges or escapes, quantified atoms must consume, pattern not nullable; the harness sends tree and text, the model checks that its printer gives the text); start >= 0; gap None or a string over "-", ".", "~" with "-" only first or last (class metacharacters "]", "^", backslash and ranges are outside). '
-              'PENDING FIX class_gap (build/pending_fixes/C13_class_gap.diff): with gap set (the default) the rewriting tears a class of two neighbouring letters apart ("A[TU]G" -> "A[T[-]*U]G", matches nothing); such calls are outside the domain (cls_gap_ok), with gap=None they are inside. '
+              'The class_gap defect found in this round ("A[TU]G" with the default gap was torn apart and matched nothing) is fixed in /repo by 7e33c72 (F52); model, theorems and domain follow the repaired code, the witness is in corpus/C13/class_gap.json. '
               'The frame theorem is at full strength (no guard) since the dot_on_gap fix 69fc7dc (bisect_left); the former witnesses '
               'are in corpus/C13/dot_on_gap.json. Tested only (differential + first-principles oracle, not proved): equivalence of the two hand-written '
               'matchers with CPython re (soundness and completeness w.r.t. the declarative language are proved, agreement with CPython is tested), that CPython parses the printed text as the tree, a BioSeq given as the pattern (cane.py:209-210, compared through its upper-cased text), independence '
